@@ -31,7 +31,7 @@ MAX_EXPRESSION_LENGTH = 10000  # Characters
 MAX_AST_DEPTH = 50  # Nesting levels
 MAX_RESULT_BITS = 100_000  # Largest integer a single operation may produce
 MAX_SEQUENCE_LENGTH = 10_000  # Longest str/list/tuple a single operation may produce
-MAX_FACTORIAL_ARGUMENT = 5_000
+MAX_FACTORIAL_ARGUMENT = 1_000
 MAX_ROUND_DIGITS = 10_000
 
 
@@ -61,6 +61,13 @@ def _bounded_add(left: Any, right: Any) -> Any:
         if len(left) + len(right) > MAX_SEQUENCE_LENGTH:
             raise ValueError("Result of + is too long")
     return operator.add(left, right)
+
+
+def _bounded_mod(left: Any, right: Any) -> Any:
+    """operator.mod for numbers only: printf-style formatting can build arbitrarily large strings."""
+    if isinstance(left, (str, bytes)):
+        raise ValueError("String formatting with % is not supported")
+    return operator.mod(left, right)
 
 
 def _bounded_factorial(n: Any) -> int:
@@ -197,7 +204,7 @@ class Mitochondria:
         ast.Mult: _bounded_mul,
         ast.Div: operator.truediv,
         ast.FloorDiv: operator.floordiv,
-        ast.Mod: operator.mod,
+        ast.Mod: _bounded_mod,
         ast.Pow: _bounded_pow,
         ast.USub: operator.neg,
         ast.UAdd: operator.pos,
